@@ -131,7 +131,9 @@ def _ser(g, scale):
                 g.emit("wf %s" % y)
         for off in r.sample([0, 1, 2, 3, 4, 5, 7, 8, 9, 12, 15, 16, 17, 20, 100, 1000, 8191, 8192, 8200, 100000, 10 ** 7], 6):
             g.emit("wrfail %s %d" % (x, off))
-        g.emit("trunc %s %s" % (x, r.choice(["readfrom", "frombuffer", "fromunsafe", "unmarshal"])))
+        g.emit("wrfailall %s" % x)
+        g.emit("rdsplit %s" % x)
+        g.emit("trunc %s %s" % (x, r.choice(["readfrom", "frombuffer", "fromunsafe", "unmarshal", "base64"])))
         g.emit("dig %s" % x)
 
 
@@ -222,7 +224,7 @@ def _fuzzdec(g, scale):
             if len(m) > 40000:
                 continue
             y = g.fresh()
-            e = r.choice(["readfrom", "frombuffer", "fromunsafe", "unmarshal", "must"])
+            e = r.choice(["readfrom", "frombuffer", "fromunsafe", "unmarshal", "must", "base64"])
             g.emit("dec %s %s %s" % (y, e, m.hex()))
             # battery on accepted+validated inputs (skipped on both sides otherwise)
             g.emit("card %s" % y)
